@@ -477,7 +477,7 @@ impl E2Part for Primitive {
     }
     fn cases(&self, tier: Tier) -> usize {
         match tier {
-            Tier::Quick => 1_200,
+            Tier::Quick => 2_400,
             Tier::Thorough => 24_000,
         }
     }
